@@ -175,6 +175,8 @@ struct G<'a> {
     /// directions whose last open was refused and that have not been reported Available since
     c02_blocked: BTreeSet<u64>,
     c02_open_blocked: [bool; 2],
+    /// whole-history ghost: C11 Finished / concurrency slot, C02 lost Readable (gen/streams_hist.rs)
+    h11: super::streams_hist::Hist11,
 }
 
 impl G<'_> {
@@ -222,6 +224,10 @@ impl G<'_> {
         }
         self.invariants(line, &prev, &nv);
         self.c02_notified(&words, &prev, &nv);
+        let diverged = self.rfc.diverged;
+        for (key, what) in self.h11.step(&words, &prev, &nv, legal, diverged) {
+            self.fail(key, what);
+        }
         Some(nv)
     }
 
@@ -1324,6 +1330,7 @@ impl G<'_> {
         self.reset_halves.clear();
         self.acked_streams.clear();
         self.rfc = Rfc { side, adv_streams: [mrb, mru], adv_max_data: rw, init_msd: srw, ..Rfc::default() };
+        self.h11 = super::streams_hist::Hist11::new(side);
         let resp = self.r.op(&format!("streams new {} {mru} {mrb} {sw} {rw} {srw}", ["c", "s"][side as usize]));
         match View::parse(&resp) {
             Some(v) => {
@@ -1349,6 +1356,7 @@ impl G<'_> {
         }
         let Some(v) = View::parse(&resp) else { return false };
         self.v = v.clone();
+        self.h11.step(&["rejected"], &prev, &v, true, false);
         self.rfc.update(&["rejected"], &v.result, true);
         self.closed_halves.clear();
         self.wrote.clear();
@@ -1723,6 +1731,7 @@ pub fn streams(rng: &mut Rng, r: &mut Runner, maxops: usize) {
         peer_stream_limit: BTreeMap::new(),
         c02_blocked: BTreeSet::new(),
         c02_open_blocked: [false, false],
+        h11: super::streams_hist::Hist11::new(side),
         params: [0; 6],
         after_rejection: false,
         max_rw: 0,
